@@ -2023,6 +2023,18 @@ class P(Prop):
     def spec(self, case, out):
         return self.spec_(case, out)
 
+    @staticmethod
+    def may_delete(op, nm):
+        """is unlisting the feature `nm` part of the documented meaning of the call?"""
+        k = op[0]
+        if k == "remove":
+            return nm == op[1]
+        if k == "expr":
+            return nm.startswith("#")
+        if k == "abscurv":
+            return nm == "ds"
+        return False
+
     def spec_ops(self, tab, ops, steps, label=""):
         n = tab.n
         for k, op in enumerate(ops):
@@ -2087,6 +2099,14 @@ class P(Prop):
                     elif nm in names:
                         tab.cols[nm] = ob["cols"][nm]
                     else:
+                        # The call may have (partly) written its target or created it - it may not have DELETED it: a feature that
+                        # was written and whose deletion nobody asked for still reads (its last written values, or what this call
+                        # wrote), whether the call returned or raised. Deletions that ARE the call's documented meaning: remove /
+                        # '#DELETE' of that name, the '#' names (they belong to the evaluator: purged by every operate(str)), and
+                        # the built-in intermediate 'ds' of computeAbsCurv.
+                        if nm in tab.cols and not self.may_delete(op, nm):
+                            return where + "feature %r (last written %s) is no longer listed: the call %s and no deletion of %r was requested" % (
+                                nm, tab.cols[nm], "returned" if ob["out"] == "ok" else "raised " + ob["out"], nm)
                         tab.cols.pop(nm, None)
             # reading a name returns what was last written under it; nothing else changed
             if sorted(names) != sorted(tab.cols):
